@@ -445,7 +445,7 @@ CLAIMS['C01']['technique'] += ' + composition theorem over a two-endpoint model 
 _C01_SEL_OLD = ('the composition of the selection oracle with the PendQ model '
     '(SelContig is a hypothesis here and a theorem there); ')
 _C01_SEL_NEW = ('the correspondence between the selection oracle of the Sender model and the real pending queue (SelFifo - the oracle names index 0 every time - is proved of the PendQ model '
-    'for ordered-only traffic, C17_ordered_only_fifo, and checked on the real queue\'s logged selections by the [C01,C17] predicate of the direct-drive sender harness; the two models are not composed in Lean); ')
+    'for ordered-only traffic, C17_ordered_only_fifo, and checked on the real queue\'s logged selections by the [C01,C17] predicate of the direct-drive sender harness; the two models are composed in Model/NetSysQ.lean, see below); ')
 assert _C01_SEL_OLD in CLAIMS['C01']['text']
 CLAIMS['C01']['text'] = CLAIMS['C01']['text'].replace(_C01_SEL_OLD, _C01_SEL_NEW)
 CLAIMS['C01']['text'] += (' SELECTION HYPOTHESIS DERIVED (Props/C01sel.lean, Proofs/NetSys/Sel*.lean): SelContig is no longer a primitive hypothesis of the DATA composition. SelFifo (decidable on the '
